@@ -22,6 +22,7 @@ struct UnitsSpec
     std::string href, ref;
     int targetFile = -1;
     std::vector<std::string> children; // unit references (standard names or names of units in the same file)
+    int flaw = 0; // 1: the element carries an attribute the parser reports as an error on this units
 };
 
 struct VarSpec
@@ -38,6 +39,7 @@ struct CompSpec
     int parent = -1; // encapsulation parent (index into comps), -1 = top level
     std::vector<VarSpec> vars;
     std::vector<std::string> cn; // units used by cn elements in the math
+    int flaw = 0; // 1: the component element, 2: its first variable carries an attribute the parser reports as an error
 };
 
 struct FileSpec
